@@ -148,9 +148,9 @@ func cmdCheck(args []string) int {
 	if profile == "" {
 		profile = "any"
 	}
-	timeout := 10
+	timeout := 20
 	if *tier == "thorough" {
-		timeout = 60
+		timeout = 90
 	}
 	outDir := filepath.Join(*verif, "out", "smt", *prop)
 	os.RemoveAll(outDir)
@@ -186,7 +186,7 @@ func cmdCheck(args []string) int {
 		// every obligation of every function in the cone is discharged: callers
 		// assume all clauses of a callee's contract, so all of them must hold
 		for _, o := range u.Obligs {
-			if owner, bad := vc.KnownFailing[o.Name]; bad && owner != *prop {
+			if owner, bad := vc.KnownFailing[baseObligation(o.Name)]; bad && owner != *prop {
 				continue // a known finding of another property: not assumed anywhere, reported by its own check
 			}
 			all = append(all, o)
@@ -209,13 +209,15 @@ func cmdCheck(args []string) int {
 	}
 	genS := time.Since(t0).Seconds() - loadS
 	knownSet := map[string]bool{}
-	for k := range vc.KnownFailing {
-		knownSet[k] = true
+	for _, o := range all {
+		if _, bad := vc.KnownFailing[baseObligation(o.Name)]; bad {
+			knownSet[o.Name] = true
+		}
 	}
 	res := vc.Solve(all, vc.SolveOpts{TimeoutS: timeout, Seed: seed, OutDir: outDir, Thorough: *tier == "thorough", Known: knownSet})
 	isKnown := func(name string) *knownFinding {
 		for i := range known.Findings {
-			if known.Findings[i].Property == *prop && known.Findings[i].Obligation == name {
+			if known.Findings[i].Property == *prop && known.Findings[i].Obligation == baseObligation(name) {
 				return &known.Findings[i]
 			}
 		}
@@ -434,6 +436,16 @@ func loadWitnessIndex(path string) []*witnessEntry {
 		out = append(out, w)
 	}
 	return out
+}
+
+var splitSuffix = regexp.MustCompile(`(/[0-9]+)?(~[0-9]+)?$`)
+var retSuffix = regexp.MustCompile(`@r[0-9]+$`)
+
+// baseObligation strips the conjunct (/k) and return-site (@rN) suffixes.
+func baseObligation(name string) string {
+	name = splitSuffix.ReplaceAllString(name, "")
+	name = retSuffix.ReplaceAllString(name, "")
+	return name
 }
 
 func sortedKeys(m map[string]bool) []string {
